@@ -1,9 +1,10 @@
-\* tune_centroid(start=0, stop=4, min_step=1/2, num=3, step_factor=2), <= 5 visits
+\* quick-tier instance of harness/props/C29.py: tune_centroid(0, 2, min_step 1/2, num 3, step_factor 2), no bound on the
+\* number of visits (MaxIter = TC_Bound + 1); the check adds CONSTRAINT DumpHist to print the histories it replays.
 CONSTANTS
   Plan = "tune"
   Den = 2
   StartN = 0
-  StopN = 8
+  StopN = 4
   MinStepN = 1
   MaxStepN = 4
   TargetN = 4
@@ -12,8 +13,8 @@ CONSTANTS
   Num = 3
   SfN = 2
   SfD = 1
-  Readings = {0, 1, 2, 5}
-  MaxIter = 5
+  Readings = {0, 1, 5}
+  MaxIter = 7
   Fuzz = TRUE
   Flips = {FALSE, TRUE}
   Backsteps = {FALSE, TRUE}
